@@ -170,11 +170,10 @@ Section Perp.
     field. exact Hs.
   Qed.
 
-  (* ---------- H is the Shannon entropy of the stored row (K-NN overload: no self slot) ---------- *)
-  Hypothesis exp_compat : forall x y, x == y -> expf x == expf y.
-  Hypothesis log_compat : forall x y, x == y -> logf x == logf y.
-  Hypothesis log_exp : forall x, logf (expf x) == x.
-  Hypothesis log_div : forall a b, logf (a / b) == logf a - logf b.
+  (* ---------- H is the Shannon entropy of the stored row (K-NN overload: no self slot) ----------
+     The only fact about the oracles that is used: at the kernel values of THIS row,
+       log (exp(-beta d_m) / S) = -beta d_m - log S
+     (what log(a/b) = log a - log b and log(exp x) = x give at these points). *)
 
   Lemma kernel_from_none : forall dd i beta,
     kernel_from expf dbl_min i None beta dd = map (fun x => expf (- beta * x)) dd.
@@ -193,33 +192,37 @@ Section Perp.
   Definition shannon (beta S : Q) (dd : list Q) : Q :=
     - qsum (map (fun x => (expf (- beta * x) / S) * logf (expf (- beta * x) / S)) dd).
 
-  Lemma shannon_expand : forall beta S dd, ~ S == 0 ->
+  Definition log_of_kernel (beta S : Q) (dd : list Q) : Prop :=
+    forall x, In x dd -> logf (expf (- beta * x) / S) == - beta * x - logf S.
+
+  Lemma shannon_expand : forall beta S dd, ~ S == 0 -> log_of_kernel beta S dd ->
     shannon beta S dd ==
     qsum (map (fun x => beta * (x * expf (- beta * x))) dd) / S
     + logf S * (qsum (map (fun x => expf (- beta * x)) dd) / S).
   Proof.
-    intros beta S dd HS. unfold shannon. induction dd as [|x r IH]; cbn [map qsum fold_right].
+    intros beta S dd HS. unfold shannon, log_of_kernel. induction dd as [|x r IH]; intros HL; cbn [map qsum fold_right].
     - field. exact HS.
     - fold (qsum (map (fun x0 => expf (- beta * x0) / S * logf (expf (- beta * x0) / S)) r)).
       fold (qsum (map (fun x0 => beta * (x0 * expf (- beta * x0))) r)).
       fold (qsum (map (fun x0 => expf (- beta * x0)) r)).
-      rewrite log_div, log_exp.
+      rewrite (HL x (or_introl eq_refl)).
       setoid_replace (- (expf (- beta * x) / S * (- beta * x - logf S) +
                          qsum (map (fun x0 => expf (- beta * x0) / S * logf (expf (- beta * x0) / S)) r)))
         with (- (expf (- beta * x) / S * (- beta * x - logf S)) +
               - qsum (map (fun x0 => expf (- beta * x0) / S * logf (expf (- beta * x0) / S)) r)) by ring.
-      rewrite IH. field. exact HS.
+      rewrite IH by (intros y Hy; apply HL; now right). field. exact HS.
   Qed.
 
   Theorem H_is_shannon_entropy : forall dd beta,
     dbl_min == 0 ->
     let ev := evaluate None dd beta in
     ~ e_sum ev == 0 ->
+    log_of_kernel beta (e_sum ev) dd ->
     e_H ev == shannon beta (e_sum ev) dd.
   Proof.
-    intros dd beta Hmin ev HS.
+    intros dd beta Hmin ev HS HL.
     pose proof (e_sum_evaluate None dd beta) as ES. fold ev in ES.
-    rewrite shannon_expand by exact HS.
+    rewrite shannon_expand by assumption.
     unfold ev in *. unfold Tsne_Model.evaluate in *. cbn [e_H e_sum e_row] in *.
     unfold kernel_row in *. rewrite kernel_from_none in *.
     set (S := fold_left Qplus (map (fun x => expf (- beta * x)) dd) dbl_min) in *.
@@ -237,3 +240,15 @@ Example perplexity_exit_nonvacuous :
   exists ev, perp_search (fun _ => 1) (fun _ => 0) 0 (1 # 100000) (Some 0%nat) [0; 0; 0] 2 = (true, Some ev).
 Proof. eexists. vm_compute. reflexivity. Qed.
 
+
+(* non-vacuity of H_is_shannon_entropy: two neighbours at distance 0, exp = 1, a log with
+   log 2 = 1, log (1/2) = -1 *)
+Definition ex_logf (x : Q) : Q := if Qeq_bool x 2 then 1 else if Qeq_bool x (1 # 2) then - (1) else 0.
+
+Example H_is_shannon_entropy_nonvacuous :
+  (0 == 0) /\ ~ e_sum (evaluate (fun _ => 1) ex_logf 0 None [0; 0] 1) == 0 /\
+  log_of_kernel (fun _ => 1) ex_logf 1 (e_sum (evaluate (fun _ => 1) ex_logf 0 None [0; 0] 1)) [0; 0].
+Proof.
+  split; [reflexivity|]. split; [intros H; vm_compute in H; discriminate|].
+  intros x Hx. destruct Hx as [<-|[<-|[]]]; vm_compute; reflexivity.
+Qed.
